@@ -134,8 +134,11 @@ func (e *Env) Close() {
 }
 
 // closeLeakedFDs closes the descriptors that a shut-down mint instance leaves open
-// on its data directory (the log file, the connection of the migration tool): a
-// check loads thousands of instances in one process.
+// on its SQLite files (the connection of the migration tool, which is never closed
+// and stays pinned by its sql.DB): a check loads thousands of instances in one
+// process. Only descriptors owned by that dead C-level connection are closed. The log
+// file is an *os.File: the runtime closes it from a finalizer, so closing its number
+// here would later close whatever other instance had reused the number.
 func closeLeakedFDs(dir string) {
 	ents, err := os.ReadDir("/proc/self/fd")
 	if err != nil {
@@ -151,7 +154,7 @@ func closeLeakedFDs(dir string) {
 		if err != nil {
 			continue
 		}
-		if strings.HasPrefix(target, prefix) {
+		if strings.HasPrefix(target, prefix) && strings.HasPrefix(filepath.Base(target), "mint.sqlite.db") {
 			syscall.Close(n)
 		}
 	}
